@@ -18,6 +18,11 @@ type ClassModel struct {
 	// is created by "x = (新建C：P，Q，R)"
 	constructor r.FuncExecutor
 
+	// declaredByProgram - true for a type a running program declared with 定义…： (its class
+	// object lives and dies with that execution); false for the predefined types and the
+	// types a library exports, whose class objects are shared by every execution
+	declaredByProgram bool
+
 	// PropList defines all property name & default value of the class, each property CANNOT be appended or removed
 	propList map[string]r.Element
 
@@ -76,6 +81,17 @@ func (cm *ClassModel) FindCompProp(name string) (*Function, bool) {
 func (cm *ClassModel) FindMethod(name string) (*Function, bool) {
 	method, ok := cm.methodList[name]
 	return method, ok
+}
+
+// MarkDeclaredByProgram - called by the evaluator when a program declares this type
+func (cm *ClassModel) MarkDeclaredByProgram() *ClassModel {
+	cm.declaredByProgram = true
+	return cm
+}
+
+// IsDeclaredByProgram - whether a running program declared this type (see MarkDeclaredByProgram)
+func (cm *ClassModel) IsDeclaredByProgram() bool {
+	return cm.declaredByProgram
 }
 
 // //// SETTERS //////
